@@ -20,6 +20,8 @@ import BroodModel.Lemmas.Entity
 import BroodModel.Lemmas.CloneFromDrops
 import BroodModel.Lemmas.Wrap
 import BroodModel.Generated.Tables
+import BroodModel.Churn
+import BroodModel.Lemmas.NoUB
 
 namespace Brood
 open Alloc
@@ -508,6 +510,65 @@ example : cost [AOp.batch 0 0 3, .release ⟨0, 0⟩, .alloc ⟨0, 1⟩] < 2 ^ 6
 
 end Brood
 
+namespace Brood
+open Alloc
+
+/-! ### `churn`: the scenario the correspondence runs to drive a generation counter up -/
+
+/-- **What the model answers to `churn`**: from any world with `Inv` and a live entity `id`, after
+any positive number of remove / insert rounds the invariant holds, the identifier handed out last is
+live, and it differs from `id` and from every identifier `x` that was dead before — which stay
+dead.  (So an implementation that hands `id` out again after 65 536 rounds disagrees with the model
+*and* with this theorem; the `Nat` model never wraps.) -/
+theorem C02_churn_never_returns : ∀ (n : Nat) {w w' : World} {id last x : Ident}, Inv w →
+    (w.alloc.get id).isSome → (x = id ∨ Dead w.alloc x) → w.churn (n + 1) id = .ok (w', last) →
+    Inv w' ∧ Dead w'.alloc x ∧ last ≠ x ∧ (w'.alloc.get last).isSome
+  | n, w, w', id, last, x, hi, hl, hx, h => by
+    simp only [World.churn] at h
+    cases h1 : w.remove id with
+    | ub e => simp [h1] at h
+    | ok p1 =>
+      obtain ⟨w1, drops⟩ := p1
+      simp only [h1] at h
+      have hi1 : Inv w1 := remove_inv hi h1
+      have hdx : Dead w1.alloc x := by
+        rcases hx with rfl | hd
+        · exact remove_makes_dead hi hl h1
+        · exact step_apres (apres_dead x) hi hd (op := .remove id) (by simp [step, h1, fstOut])
+      cases h2 : w1.insert [] [] with
+      | ub e => simp [h2] at h
+      | ok p2 =>
+        obtain ⟨w2, id2⟩ := p2
+        simp only [h2] at h
+        have hi2 : Inv w2 := insert_inv hi1 h2
+        obtain ⟨loc, ha⟩ := insert_alloc hi1 h2
+        have hdx2 : Dead w2.alloc x := allocate_dead hdx ha
+        have hlive2 : w2.alloc.get id2 = some loc := allocate_get ha
+        have hne : id2 ≠ x := by
+          intro e; subst e
+          rw [hdx2.not_live] at hlive2; cases hlive2
+        cases n with
+        | zero =>
+          simp only [World.churn] at h
+          cases h
+          exact ⟨hi2, hdx2, hne, by simp [hlive2]⟩
+        | succ m =>
+          exact C02_churn_never_returns m hi2 (by simp [hlive2]) (Or.inr hdx2) h
+
+/-- No `churn` from a world with `Inv` reaches an unchecked access. -/
+theorem C02_churn_no_ub : ∀ (n : Nat) {w : World} {id : Ident}, Inv w →
+    ∃ w' last, w.churn n id = .ok (w', last) ∧ Inv w'
+  | 0, w, id, hi => ⟨w, id, rfl, hi⟩
+  | n + 1, w, id, hi => by
+    simp only [World.churn]
+    obtain ⟨w1, drops, h1⟩ := remove_no_ub hi id
+    have hi1 := remove_inv hi h1
+    obtain ⟨w2, id2, h2⟩ := insert_ok hi1 (shape := []) (vals := []) (by simp [World.shapeOk])
+    simp only [h1, h2]
+    exact C02_churn_no_ub n (insert_inv hi1 h2)
+
+end Brood
+
 #print axioms Brood.C02_unique
 #print axioms Brood.C02_fresh
 #print axioms Brood.C02_dead_forever
@@ -524,3 +585,5 @@ end Brood
 #print axioms Brood.C02_machine_wrap_witness
 #print axioms Brood.C02_machine_partial_m
 #print axioms Brood.C02_machine_counter
+#print axioms Brood.C02_churn_never_returns
+#print axioms Brood.C02_churn_no_ub
